@@ -28,6 +28,9 @@ CHECKS['C05'] = dict(cat='exploration', tech='Hypothesis-generated segment layou
 CHECKS['C15'] = dict(cat='exploration', tech='Hypothesis over direct calls of the pressure predictors (closed form with the documented integer-step rounding) and of the friction routine (metamorphic: larger diameter, not larger loss); generated runs under both hydraulic models checking sign and additivity invariants of pumping power and the shape of the pressure series',
              text='~40 000 predictor cases (lifetime x steps x overpressure x rates incl. rates that do not divide 100 evenly), 4 000 ordered diameter pairs through WellPressureDrop / InjectionWellPressureDrop, and ~1 000 generated runs (impedance and PI/II models, pumped and flash plants, overpressure with split injection reservoir) check PumpingPower >= 0, total = production + injection with both >= 0, start at pct x hydrostatic, constant decline at the stated rate, floor at hydrostatic, injection pressure rising at rate/tspy.',
              note='Overpressure is only generated under the PI/II model (with the impedance model the report writer fails: rejected input). No declared range exists for overpressure percentage / rates: generator uses 100..400 % and 0.01..100 %/yr.', ref='2/C15')
+CHECKS['C17'] = dict(cat='exploration', tech='Hypothesis inputs to HIP-RA-X in-process; additive identities and orderings on one run; metamorphic pairs (area x k, thickness x k, same quantity written in another catalogue unit via an independent conversion table)',
+             text='12 000 (quick) generated in-range inputs incl. sub-1 % porosity, derived vs provided depth/pressure/fluid properties; volumes as porosity fractions, stored = rock + fluid, available <= stored, producible <= available; extensive outputs must scale by exactly k (rel 1e-9) and per-area / per-volume / percentage / specific outputs stay put; unit variants must give the same outputs (rel 1e-7).',
+             note='Known finding F-C17-a (compound-unit inputs abort, root cause shared with F-C06-a) matched by clause+error+parameter. States the water-property backend refuses are rejected inputs.', ref='2/C17')
 NOT_YET = {}
 def main():
     props = [json.loads(l) for l in open(os.path.join(HERE, 'properties.jsonl'))]
